@@ -43,6 +43,10 @@
         proof fn law_frame(b: Seq<u8>, s: Seq<u8>)
             requires Self::wf(), Self::delimiting(), Self::spec_deser(b) is Some,
             ensures Self::spec_deser(b + s) == Self::spec_deser(b);
+        //@ tag len.law_bounds C14
+        proof fn law_bounds(b: Seq<u8>)
+            requires Self::wf(),
+            ensures Self::spec_deser(b) matches Some((n, k)) ==> 0 <= k <= b.len();
         //@ untag
     }
 
@@ -63,6 +67,7 @@
         proof fn law_inverse(len: usize, p: Seq<u8>, s: Seq<u8>) {
             assert(Self::spec_ser(len) + p + s =~= p);
         }
+        proof fn law_bounds(b: Seq<u8>) {}
         //@ tag len.law_frame.Empty C14 C16
         proof fn law_frame(b: Seq<u8>, s: Seq<u8>) {}
         //@ untag
@@ -87,6 +92,7 @@
             let b = Self::spec_ser(len) + p + s;
             assert(b.subrange(0, N as int) =~= Self::spec_pad(len) + p);
         }
+        proof fn law_bounds(b: Seq<u8>) {}
         //@ tag len.law_frame.Fixed C14 C16
         proof fn law_frame(b: Seq<u8>, s: Seq<u8>) {}
         //@ untag
@@ -126,6 +132,7 @@
             }
             assert(b.subrange(pre.len() as int, pre.len() + len) =~= p);
         }
+        proof fn law_bounds(b: Seq<u8>) {}
         //@ tag len.law_frame.Tlv C14 C16
         proof fn law_frame(b: Seq<u8>, s: Seq<u8>) {
             if b.len() >= 3 { assert((b + s).subrange(1, 3) =~= b.subrange(1, 3)); }
@@ -199,6 +206,7 @@
             }
             assert(b.subrange(N as int, N + len) =~= p);
         }
+        proof fn law_bounds(b: Seq<u8>) {}
         //@ tag len.law_frame.Llv C14 C16
         proof fn law_frame(b: Seq<u8>, s: Seq<u8>) {
             lemma_llv_val_prefix(b, b + s, N as nat);
@@ -285,6 +293,7 @@
             }
             assert(b.subrange(pre.len() as int, pre.len() + len) =~= p);
         }
+        proof fn law_bounds(b: Seq<u8>) {}
         //@ tag len.law_frame.Adpu C14 C16
         proof fn law_frame(b: Seq<u8>, s: Seq<u8>) {
             if b.len() >= 3 { assert((b + s).subrange(1, 3) =~= b.subrange(1, 3)); }
